@@ -622,7 +622,7 @@ func (sc *SpecCtx) call(e *SExpr) (*Val, error) {
 			return nil, fmt.Errorf("deref of non-pointer")
 		}
 		if isStruct(pt.Elem()) {
-			return &Val{T: x.T, Ty: x.Ty}, nil
+			return &Val{T: x.T, Ty: x.Ty, StructLoc: true}, nil
 		}
 		return &Val{T: g.load(sc.cur, x, pt.Elem()), Ty: pt.Elem()}, nil
 	case "target_type":
